@@ -54,6 +54,8 @@ var verifyFields = map[string]string{
 	"reachable_time": ".reachable", "retransmit_timer": ".retransmit", "mtu": ".mtu",
 	"prefix_information_preferred_lifetime": ".piPreferred", "prefix_information_valid_lifetime": ".piValid",
 	"route_information_lifetime": ".riLifetime", "captive_portal": ".captivePortal",
+	"rdnss_count": ".rdnssCount", "rdnss_lifetime": ".rdnssLifetime", "rdnss_servers": ".rdnssServers",
+	"dnssl_count": ".dnsslCount", "dnssl_lifetime": ".dnsslLifetime", "dnssl_domain_names": ".dnsslNames",
 }
 
 var vRAFields = map[string]string{"CurrentHopLimit": "hopLimit", "ManagedConfiguration": "managed", "OtherConfiguration": "other",
@@ -65,7 +67,12 @@ type vTr struct {
 	p    *pkg
 	fd   *ast.FuncDecl
 	fn   string
-	kind map[string]string // variable → ra | opts | piList | riList | pi | ri | mtu | portal
+	kind map[string]string // variable → ra | opts | piList | riList | rdnssList | dnsslList | pi | ri | mtu | portal
+	// index loop `for i := range A` over two DNS option lists of equal length: A[i] ↦ ab.1, B[i] ↦ ab.2
+	idxVar, idxA, idxB string
+	eqLen              map[string]string // A → B once `if len(A) != len(B) { …; return ps }` was passed
+	subst              map[string]string // names bound by an if-init `a, b := X, Y`
+	pushed             bool
 }
 
 func (t *vTr) fail(n ast.Node, what string) {
@@ -84,7 +91,14 @@ func (t *vTr) val(e ast.Expr) string {
 		}
 	case *ast.ParenExpr:
 		return "(" + t.val(x.X) + ")"
+	case *ast.Ident:
+		if v, ok := t.subst[x.Name]; ok {
+			return v
+		}
 	case *ast.SelectorExpr:
+		if v, ok := t.dnsField(x); ok {
+			return v
+		}
 		if exprString(x) == "time.Millisecond" {
 			return "ms"
 		}
@@ -117,13 +131,50 @@ func (t *vTr) val(e ast.Expr) string {
 		}
 	case *ast.CallExpr:
 		if exprString(x.Fun) == "len" && len(x.Args) == 1 {
-			if id, ok := x.Args[0].(*ast.Ident); ok && (t.kind[id.Name] == "piList" || t.kind[id.Name] == "riList") {
+			if id, ok := x.Args[0].(*ast.Ident); ok && strings.HasSuffix(t.kind[id.Name], "List") {
 				return id.Name + ".length"
+			}
+			if v, ok := t.dnsField(x.Args[0]); ok && strings.HasSuffix(v, ".2") {
+				return v + ".length"
 			}
 		}
 	}
 	t.fail(e, "value "+exprString(e))
 	return ""
+}
+
+// dnsField: A[i].Lifetime / B[i].Lifetime / A[i].Servers / A[i].DomainNames inside the index loop
+func (t *vTr) dnsField(e ast.Expr) (string, bool) {
+	sel, ok := e.(*ast.SelectorExpr)
+	if !ok || t.idxVar == "" {
+		return "", false
+	}
+	ix, ok := sel.X.(*ast.IndexExpr)
+	if !ok || exprString(ix.Index) != t.idxVar {
+		return "", false
+	}
+	var side string
+	switch exprString(ix.X) {
+	case t.idxA:
+		side = "ab.1"
+	case t.idxB:
+		side = "ab.2"
+	default:
+		return "", false
+	}
+	switch sel.Sel.Name {
+	case "Lifetime":
+		return side + ".1", true
+	case "Servers":
+		if t.kind[t.idxA] == "rdnssList" {
+			return side + ".2", true
+		}
+	case "DomainNames":
+		if t.kind[t.idxA] == "dnsslList" {
+			return side + ".2", true
+		}
+	}
+	return "", false
 }
 
 func (t *vTr) cond(e ast.Expr) string {
@@ -191,9 +242,8 @@ func (t *vTr) push(c *ast.CallExpr) string {
 	default:
 		t.fail(c.Args[1], "details label")
 	}
-	// the values reported must be values the translation knows (they do not enter the result)
-	t.val(c.Args[2])
-	t.val(c.Args[3])
+	// (the values reported do not enter the result: the message text is not modelled)
+	t.pushed = true
 	return "{ field := " + f + det + " }"
 }
 
@@ -217,6 +267,8 @@ func isReturnNil(s ast.Stmt) bool {
 var vPick = map[string][2]string{ // type argument → (list kind, Lean function)
 	"*ndp.PrefixInformation": {"piList", "Corerad.Model.pickPI"},
 	"*ndp.RouteInformation":  {"riList", "Corerad.Model.pickRI"},
+	"*ndp.RecursiveDNSServer": {"rdnssList", "Corerad.Model.pickRDNSS"},
+	"*ndp.DNSSearchList":      {"dnsslList", "Corerad.Model.pickDNSSL"},
 }
 var vPickFirst = map[string][2]string{
 	"*ndp.MTU":           {"mtu", "Corerad.Model.firstMTU"},
@@ -304,12 +356,117 @@ func (t *vTr) stmts(list []ast.Stmt, ind string, inLoop bool) string {
 				}
 			}
 		}
+		// join := func(…) … { … }: a closure used only to render values for the message text
+		if x.Tok == token.DEFINE && len(x.Lhs) == 1 && len(x.Rhs) == 1 {
+			if _, isFn := x.Rhs[0].(*ast.FuncLit); isFn {
+				return t.stmts(rest, ind, inLoop)
+			}
+		}
+		// equal := true; for j := range A[i].F { if a, b := A[i].F[j], B[i].F[j]; a != b { equal = false; break } }; if !equal { pushes }
+		if x.Tok == token.DEFINE && len(x.Lhs) == 1 && len(x.Rhs) == 1 && exprString(x.Rhs[0]) == "true" && len(rest) >= 2 && t.idxVar != "" {
+			flag := exprString(x.Lhs[0])
+			loop, ok1 := rest[0].(*ast.RangeStmt)
+			chk, ok2 := rest[1].(*ast.IfStmt)
+			if ok1 && ok2 && loop.Tok == token.DEFINE && loop.Value == nil && loop.Key != nil && len(loop.Body.List) == 1 &&
+				chk.Init == nil && chk.Else == nil && exprString(chk.Cond) == "!"+flag {
+				j := exprString(loop.Key)
+				xs, okx := t.dnsField(loop.X)
+				inner, ok3 := loop.Body.List[0].(*ast.IfStmt)
+				if okx && ok3 && inner.Else == nil && inner.Init != nil && len(inner.Body.List) == 2 {
+					as, ok4 := inner.Init.(*ast.AssignStmt)
+					setF, ok5 := inner.Body.List[0].(*ast.AssignStmt)
+					brk, ok6 := inner.Body.List[1].(*ast.BranchStmt)
+					if ok4 && ok5 && ok6 && as.Tok == token.DEFINE && len(as.Lhs) == 2 && len(as.Rhs) == 2 &&
+						brk.Tok == token.BREAK && brk.Label == nil && stmtString(setF) == flag+" = false" &&
+						exprString(inner.Cond) == exprString(as.Lhs[0])+" != "+exprString(as.Lhs[1]) {
+						ea, okA := as.Rhs[0].(*ast.IndexExpr)
+						eb, okB := as.Rhs[1].(*ast.IndexExpr)
+						if okA && okB && exprString(ea.Index) == j && exprString(eb.Index) == j {
+							va, oka := t.dnsField(ea.X)
+							vb, okb := t.dnsField(eb.X)
+							// the two slices must be known to have equal lengths here, and be the looped one and its partner
+							if oka && okb && va == xs && strings.HasPrefix(va, "ab.1") && strings.HasPrefix(vb, "ab.2") &&
+								t.eqLen["len("+exprString(ea.X)+")"] == "len("+exprString(eb.X)+")" {
+								var ps []string
+								for _, b := range chk.Body.List {
+									pc, ok := isPush(b)
+									if !ok {
+										t.fail(b, "statement under `if !"+flag+"`")
+									}
+									ps = append(ps, t.push(pc))
+								}
+								return "(if ¬ (Corerad.Model.zipAllEq " + va + " " + vb + " = true) then [" + strings.Join(ps, ", ") + "] else []) ++\n" + ind + t.stmts(rest[2:], ind, inLoop)
+							}
+						}
+					}
+				}
+			}
+		}
 		t.fail(x, "assignment "+stmtString(x))
 	case *ast.IfStmt:
-		if x.Init != nil || x.Else != nil {
-			t.fail(x, "if with init / else")
+		if x.Else != nil {
+			t.fail(x, "if with else")
+		}
+		// the pattern  equal := true; for j := range A[i].F { if a, b := A[i].F[j], B[i].F[j]; a != b { equal = false; break } }; if !equal { pushes }
+		// is recognised at `equal := true` (below); a bare `if !equal` elsewhere is unsupported
+		savedSubst := t.subst
+		if x.Init != nil {
+			as, ok := x.Init.(*ast.AssignStmt)
+			if !ok || as.Tok != token.DEFINE || len(as.Lhs) != len(as.Rhs) {
+				t.fail(x, "if init statement")
+			}
+			ns := map[string]string{}
+			for k, v := range t.subst {
+				ns[k] = v
+			}
+			for i := range as.Lhs {
+				ns[exprString(as.Lhs[i])] = t.val(as.Rhs[i])
+			}
+			t.subst = ns
 		}
 		c := t.cond(x.Cond)
+		t.subst = savedSubst
+		// if len(A) != len(B) { ps.push(…); return ps }   with nothing pushed before
+		if n := len(x.Body.List); n >= 2 && !inLoop {
+			if r, ok := x.Body.List[n-1].(*ast.ReturnStmt); ok && len(r.Results) == 1 && exprString(r.Results[0]) == "ps" {
+				if t.pushed {
+					t.fail(r, "early `return ps` after earlier pushes")
+				}
+				var ps []string
+				for _, b := range x.Body.List[:n-1] {
+					pc, ok := isPush(b)
+					if !ok {
+						t.fail(b, "statement before `return ps`")
+					}
+					ps = append(ps, t.push(pc))
+				}
+				t.pushed = false
+				if be, ok := x.Cond.(*ast.BinaryExpr); ok && be.Op == token.NEQ {
+					la, lb := exprString(be.X), exprString(be.Y)
+					if strings.HasPrefix(la, "len(") && strings.HasPrefix(lb, "len(") {
+						t.eqLen[strings.TrimSuffix(strings.TrimPrefix(la, "len("), ")")] = strings.TrimSuffix(strings.TrimPrefix(lb, "len("), ")")
+					}
+				}
+				return "if " + c + " then [" + strings.Join(ps, ", ") + "] else\n" + ind + t.stmts(rest, ind, inLoop)
+			}
+		}
+		// if c { ps.push(…); continue }
+		if n := len(x.Body.List); n >= 2 && inLoop {
+			if br, ok := x.Body.List[n-1].(*ast.BranchStmt); ok && br.Tok == token.CONTINUE && br.Label == nil {
+				var ps []string
+				for _, b := range x.Body.List[:n-1] {
+					pc, ok := isPush(b)
+					if !ok {
+						t.fail(b, "statement before continue")
+					}
+					ps = append(ps, t.push(pc))
+				}
+				if be, ok := x.Cond.(*ast.BinaryExpr); ok && be.Op == token.NEQ {
+					t.eqLen[exprString(be.X)] = exprString(be.Y)
+				}
+				return "if " + c + " then [" + strings.Join(ps, ", ") + "] else\n" + ind + t.stmts(rest, ind, inLoop)
+			}
+		}
 		// if c { return nil } / if c { continue }
 		if len(x.Body.List) == 1 {
 			switch b := x.Body.List[0].(type) {
@@ -340,6 +497,17 @@ func (t *vTr) stmts(list []ast.Stmt, ind string, inLoop bool) string {
 		return "(if " + c + " then [" + strings.Join(ps, ", ") + "] else []) ++\n" + ind + t.stmts(rest, ind, inLoop)
 	case *ast.RangeStmt:
 		id, ok := x.X.(*ast.Ident)
+		// for i := range A  over DNS option lists A, B with len(A) == len(B) established: zip
+		if ok && x.Tok == token.DEFINE && x.Value == nil && x.Key != nil && (t.kind[id.Name] == "rdnssList" || t.kind[id.Name] == "dnsslList") {
+			b, have := t.eqLen[id.Name]
+			if !have || t.kind[b] != t.kind[id.Name] || t.idxVar != "" || inLoop {
+				t.fail(x, "index loop over "+id.Name+" (no `if len("+id.Name+") != len(…) { …; return ps }` before it)")
+			}
+			t.idxVar, t.idxA, t.idxB = exprString(x.Key), id.Name, b
+			body := t.stmts(x.Body.List, ind+"    ", true)
+			t.idxVar, t.idxA, t.idxB = "", "", ""
+			return "((List.zip " + id.Name + " " + b + ").flatMap (fun ab =>\n" + ind + "    " + body + ")) ++\n" + ind + t.stmts(rest, ind, inLoop)
+		}
 		if !ok || x.Tok != token.DEFINE || exprString(x.Key) != "_" || x.Value == nil {
 			t.fail(x, "range statement")
 		}
@@ -380,7 +548,7 @@ func translateVerifyFunc(p *pkg, name string) (def leanDef, err error) {
 			panic(r)
 		}
 	}()
-	t := &vTr{p: p, fn: name, kind: map[string]string{}}
+	t := &vTr{p: p, fn: name, kind: map[string]string{}, eqLen: map[string]string{}, subst: map[string]string{}}
 	fd, ok := p.funcs[name]
 	if !ok {
 		return def, fmt.Errorf("translate: %s: function not found in %s", name, p.dir)
